@@ -88,6 +88,7 @@ def getExt (j : Json) : Except String (Ext Float) := do
     dvOfOmm := ← table1 getBuf nanBuf j "dv_of_omm"
     curvOfOmm := ← table1 getBuf nanBuf j "curv_of_omm"
     mappedMapping := ← table2 getBuf nanBuf j "mapped_mapping"
+    dvmMapping := ← constBuf j "dvm_mapping"
     wtCompute := ← constBuf j "wt_compute"
     wtCheck := ← table1 getBool true j "wt_check"
     dvW := ← constBuf j "dv_w"
